@@ -63,6 +63,9 @@ def check_case(case, ctx=None):
             else:
                 idx = [i for i, c in enumerate(base) if isinstance(c, int)]
                 p = tuple(base[: idx[0] + 1]) + (name,) if idx else (name,)
+            # untraceable addresses are written without index levels (a map that mixes scalar leaves and
+            # index levels at one depth cannot be queried by index)
+            p = gfi.static_part(p)
         if gfi.static_part(p) in traceable:
             continue
         entries.append((p, jnp.asarray(v, dtype=jnp.float32), False, p))
@@ -95,12 +98,11 @@ def check_case(case, ctx=None):
         got = gfi.chm_get(res, tuple(comps))
         if got is None or not np.allclose(np.asarray(got), np.asarray(v)):
             raise Violation("invalid_subset:lost", f"untraceable address {mp} (value {np.asarray(v)!r}) is not in the returned map (got {got!r})", case)
+    from genjax import Selection as S
+
     for comps, v, _ok, mp in valid:
-        try:
-            got = gfi.chm_get(res, tuple(comps))
-        except Exception:
-            got = None
-        if got is not None:
+        sp = gfi.static_part(mp)
+        if not res.filter(S.at[sp] if len(sp) > 1 else S.at[sp[0]]).static_is_empty():
             raise Violation("invalid_subset:extra", f"traceable address {mp} is in the returned map", case)
 
 
